@@ -18,7 +18,7 @@ LEVEL_TEXT = (
     "label, on has_specification (queried on a generated subset of steps and at the end, on both, because the query "
     "marks labels), on the set of stored rules and on contains(parent, children) for stored keys, permuted children "
     "and non-stored keys; the strategy each hands back for a stored key of a non-empty class must reproduce that key "
-    "when re-applied; at the end the specification rules of both satisfy the C02 oracles. In 'lockstep' the two searches must "
+    "when re-applied, and what the equivalence store of either hands back (looked up on its own: a key can be in both stores) must make a two-way rule with the stored child; at the end the specification rules of both satisfy the C02 oracles. In 'lockstep' the two searches must "
     "label the same classes in the same order, store the same rules, verify the same labels and answer has_specification alike after every level."
 )
 LEVEL_NOTE = "Trusted: the tee (forwards calls verbatim, in the same order, to both databases)."
